@@ -1,21 +1,20 @@
 import PolyVerif.Base.Proto
-import PolyVerif.Model.Transform
 /-
-Model of poly/primers: NucleobaseDeBruijnSequence, CreateBarcodesWithBannedSequences, CreateBarcodes
-(primers/primers.go, as it is after the fix commit "barcodes are re-checked against every ban and
-filter after each shift").
+Model of poly/primers.NucleobaseDeBruijnSequence (primers/primers.go).
 
 Everything is list-backed and fuel-structural so that the kernel can evaluate it (`decide +kernel`
 gets stuck on `Array.get!/set!` and on well-founded recursion).  Where Go would panic (index or
-slice out of range, division by zero) the model returns `Res.panic`; when a fuel counter runs out
-it returns `Res.fuel`, which the theorems show never happens (termination).  Strings are
-`List Char` on ASCII input (one byte = one rune), the domain the property names.
+slice out of range, division by zero) the model returns `Res.panic`; when the fuel counter runs
+out it returns `Res.fuel`.  Strings are `List Char` (ASCII, one byte = one rune).
+
+The barcode functions that call this one are modelled in Model/Barcodes.lean (kept apart so that
+the expensive kernel evaluations of `deBruijn n` do not depend on the regenerated complement table).
 -/
 namespace PolyVerif.DeBruijn
 open PolyVerif
 
-/-- outcome of a Go call: a value, a run-time panic, or "the model's fuel ran out" (which means the
-Go loop runs longer than the bound the model was given; proved unreachable on the property's domain) -/
+/-- outcome of a Go call: a value, a run-time panic, or "the model's fuel ran out" (the Go loop
+runs longer than the bound the model was given; proved unreachable on the property's domain) -/
 inductive Res (α : Type) where
   | ok (a : α)
   | panic
@@ -28,171 +27,95 @@ inductive Res (α : Type) where
   | .panic => .panic
   | .fuel => .fuel
 
-/-! ### NucleobaseDeBruijnSequence -/
+def Res.toOption {α : Type} : Res α → Option α
+  | .ok a => some a
+  | _ => none
 
 /-- `alphabet := "ATGC"` -/
 def alphabet : Str := ['A', 'T', 'G', 'C']
 
-/-- `a[i]` on a byte slice, with Go's bounds check -/
-def aGet : List Nat → Nat → Res Nat
-  | [], _ => .panic
-  | x :: _, 0 => .ok x
+/-- `a[i]` on the byte slice (`none` = index out of range) -/
+def aGet : List Nat → Nat → Option Nat
+  | [], _ => none
+  | x :: _, 0 => some x
   | _ :: xs, i + 1 => aGet xs i
 
-/-- `a[i] = v`, with Go's bounds check -/
-def aSet : List Nat → Nat → Nat → Res (List Nat)
-  | [], _, _ => .panic
-  | _ :: xs, 0, v => .ok (v :: xs)
-  | x :: xs, i + 1, v => (aSet xs i v).bind fun ys => .ok (x :: ys)
+/-- the two variables captured by the closure: the byte array `a` and `seq`; `seq` is kept
+REVERSED (`append(seq, xs...)` pushes the elements of `xs`, in order, onto the front) -/
+abbrev St := List Nat × List Nat
 
-/-- the two variables the closure captures: the byte array `a` and `seq`.  `seq` is kept REVERSED
-(`append(seq, xs...)` becomes "push the elements of xs in order onto the front"). -/
-structure St where
-  a : List Nat
-  seqRev : List Nat
+/-- `for j := frm; j < alphabetLength; j++ { a[t] = byte(j); ConstructDeBruijn(t+1, t) }`;
+`f` is the recursive call `ConstructDeBruijn(t+1, t)` acting on the captured variables, `cnt` the
+number of iterations left (`alphabetLength - j`).  `a[t] = …` is in range here because the caller
+has already written `a[t]` (`List.set` would silently ignore an out-of-range index). -/
+def forJ (f : List Nat → List Nat → Res St) (t : Nat) : (cnt j : Nat) → List Nat → List Nat → Res St
+  | 0, _, a, seq => .ok (a, seq)
+  | cnt + 1, j, a, seq =>
+    match f (a.set t j) seq with
+    | .ok (a', seq') => forJ f t cnt (j + 1) a' seq'
+    | r => r
 
-/-- `for j := from; j < alphabetLength; j++` — the values `j` takes -/
-def jRange (frm : Nat) : List Nat := (List.range 4).filter (fun j => frm ≤ j)
-
-/-- Go's `ConstructDeBruijn(t, p)`; `n` = substringLength.  `fuel` bounds the recursion depth
-(`t` grows by one per level and the recursion stops at `t > n`).
-Go's `t - p` is an `int`; a negative index panics. `a[t-p] + 1` is `byte` arithmetic — the stored
-values are < 4 so it never wraps. -/
-def construct (n : Nat) : (fuel t p : Nat) → St → Res St
-  | 0, _, _, _ => .fuel
-  | fuel + 1, t, p, st =>
-    if t > n then
-      if p = 0 then .panic                                   -- substringLength % 0
-      else if n % p = 0 then
+/-- Go's recursive closure `ConstructDeBruijn(t, p)`; `n` = substringLength, `cap` = `len(a)` =
+`alphabetLength*n` (the array never changes its length).  `fuel` bounds the recursion depth (`t`
+grows by one per level and the recursion stops at `t > n`).  `t - p` is a Go `int`: a negative
+index panics.  `a[t-p] + 1` is `byte` arithmetic; the stored values are < 4 so it never wraps.
+Comparisons are written with `Nat.blt/ble/beq` and `bif` because the kernel evaluates those fastest. -/
+def construct (n cap : Nat) : (fuel t p : Nat) → List Nat → List Nat → Res St
+  | 0, _, _, _, _ => .fuel
+  | fuel + 1, t, p, a, seq =>
+    bif n.blt t then                                           -- if t > substringLength
+      bif p.beq 0 then .panic                                  -- substringLength % 0
+      else bif (n % p).beq 0 then
         -- seq = append(seq, a[1:p+1]...)   (slice bounds are checked against cap(a) = len(a))
-        if p + 1 ≤ st.a.length then
-          .ok { st with seqRev := ((st.a.drop 1).take p).reverse ++ st.seqRev }
-        else .panic
-      else .ok st
+        bif (p + 1).ble cap then .ok (a, ((a.drop 1).take p).reverse ++ seq) else .panic
+      else .ok (a, seq)
     else
-      if t < p then .panic else                              -- a[t-p] with a negative index
-      -- a[t] = a[t-p]
-      (aGet st.a (t - p)).bind fun v =>
-      (aSet st.a t v).bind fun a1 =>
-      -- ConstructDeBruijn(t+1, p)
-      (construct n fuel (t + 1) p { st with a := a1 }).bind fun st2 =>
-      -- for j := int(a[t-p] + 1); j < alphabetLength; j++ { a[t] = byte(j); ConstructDeBruijn(t+1, t) }
-      (aGet st2.a (t - p)).bind fun v2 =>
-      (jRange (v2 + 1)).foldl
-        (fun (acc : Res St) j => acc.bind fun s =>
-          (aSet s.a t j).bind fun a3 => construct n fuel (t + 1) t { s with a := a3 })
-        (.ok st2)
+      bif t.blt p || cap.ble t then .panic else                -- a[t-p], a[t] out of range
+      match aGet a (t - p) with
+      | none => .panic
+      | some v =>
+        -- a[t] = a[t-p]; ConstructDeBruijn(t+1, p)
+        match construct n cap fuel (t + 1) p (a.set t v) seq with
+        | .ok (a2, seq2) =>
+          -- for j := int(a[t-p] + 1); j < alphabetLength; j++ { … }
+          match aGet a2 (t - p) with
+          | none => .panic
+          | some v2 => forJ (construct n cap fuel (t + 1) t) t (4 - (v2 + 1)) (v2 + 1) a2 seq2
+        | r => r
 
 /-- `alphabet[i]` -/
-def alphabetAt (i : Nat) : Res Char :=
+def alphabetAt (i : Nat) : Option Char :=
   match i with
-  | 0 => .ok 'A' | 1 => .ok 'T' | 2 => .ok 'G' | 3 => .ok 'C' | _ => .panic
+  | 0 => some 'A' | 1 => some 'T' | 2 => some 'G' | 3 => some 'C' | _ => none
 
-def mapAlphabet : List Nat → Res Str
-  | [] => .ok []
-  | i :: is => (alphabetAt i).bind fun c => (mapAlphabet is).bind fun cs => .ok (c :: cs)
+/-- `for _, i := range seq { buf.WriteByte(alphabet[i]) }`, reading the reversed `seq` from its
+front and building the text from its back -/
+def toLetters : List Nat → Str → Res Str
+  | [], acc => .ok acc
+  | i :: is, acc =>
+    match alphabetAt i with
+    | some c => toLetters is (c :: acc)
+    | none => .panic
 
-/-- `primers.NucleobaseDeBruijnSequence(n)` for `n ≥ 0` (a negative argument panics in `make`). -/
+/-- `k ≤ len(b)`, without walking the whole of `b` -/
+def atLeast : Str → Nat → Bool
+  | _, 0 => true
+  | [], _ + 1 => false
+  | _ :: cs, k + 1 => atLeast cs k
+
+/-- `primers.NucleobaseDeBruijnSequence(n)` for `n ≥ 0` (a negative argument panics in `make`).
+For `n = 0` Go panics in `a[1:2]` on the empty array — here `(0+1).ble 0 = false`. -/
 def deBruijn (n : Nat) : Res Str :=
-  -- a := make([]byte, alphabetLength*substringLength)
-  let a := List.replicate (4 * n) 0
-  (construct n (n + 2) 1 1 { a := a, seqRev := [] }).bind fun st =>
-  (mapAlphabet st.seqRev.reverse).bind fun b =>
-  -- b + b[0:substringLength-1]
-  if n = 0 then .panic                                       -- b[0:-1]
-  else if n - 1 ≤ b.length then .ok (b ++ b.take (n - 1)) else .panic
-
-/-! ### CreateBarcodesWithBannedSequences -/
-
-/-- Go's `strings.Contains(s, sub)` (byte-wise; `Contains(s, "")` is true) -/
-def contains : Str → Str → Bool
-  | [], sub => sub.isEmpty
-  | c :: cs, sub => sub.isPrefixOf (c :: cs) || contains cs sub
-
-/-- the body of the re-check loop: does ANY ban, any reverse complement of a ban, or any filter
-reject the window?  (Go sets `banned = true` without leaving the loops; filters are pure here.) -/
-def rejected (bans : List Str) (filters : List (Str → Bool)) (w : Str) : Bool :=
-  bans.any (fun b => contains w b || contains w (Transform.revComp b)) || filters.any (fun f => !f w)
-
-/-- `debruijn[start:end]` for `0 ≤ start ≤ end`, with Go's bounds check against `len` -/
-def slice (db : Str) (start end_ : Nat) : Res Str :=
-  if start ≤ end_ ∧ end_ ≤ db.length then .ok ((db.drop start).take (end_ - start)) else .panic
-
-/-- result of the inner `for { … }` loop -/
-inductive Shift where
-  | found (start end_ barcodeNum : Nat)   -- `break`: the window passed every check
-  | atEnd                                 -- `return barcodes`
-  | panic
-  | fuel
-  deriving Repr, DecidableEq
-
-/-- the inner loop: shift the window by one (and count `barcodeNum` up) while it is rejected -/
-def shiftLoop (db : Str) (bans : List Str) (filters : List (Str → Bool)) :
-    (fuel start end_ barcodeNum : Nat) → Shift
-  | 0, _, _, _ => .fuel
-  | fuel + 1, start, end_, barcodeNum =>
-    match slice db start end_ with
-    | .ok w =>
-      if !rejected bans filters w then .found start end_ barcodeNum
-      else if end_ + 1 > db.length then .atEnd
-      else shiftLoop db bans filters fuel (start + 1) (end_ + 1) (barcodeNum + 1)
-    | _ => .panic
-
-/-- the outer loop from a given `barcodeNum`; the barcodes appended from here on, in order
-(`barcodes = append(barcodes, w)` followed by the rest of the loop is `w :: rest`).
-`stride = length - (maxSubSequence - 1)` is a Go `int` and may be ≤ 0. -/
-def outerLoop (db : Str) (length : Nat) (stride : Int) (bans : List Str) (filters : List (Str → Bool)) :
-    (fuel barcodeNum : Nat) → Res (List Str)
-  | 0, _ => .fuel
-  | fuel + 1, barcodeNum =>
-    if (barcodeNum : Int) * stride + length < db.length then
-      let startI : Int := barcodeNum * stride
-      if startI < 0 then .panic else                         -- debruijn[start:end], start < 0
-      let start := startI.toNat
-      let end_ := start + length
-      match shiftLoop db bans filters (db.length + 1) start end_ (barcodeNum + 1) with
-      | .found s e bn =>
-        (slice db s e).bind fun w =>
-        (outerLoop db length stride bans filters fuel bn).bind fun rest => .ok (w :: rest)
-      | .atEnd => .ok []
-      | .panic => .panic
-      | .fuel => .fuel
-    else .ok []
-
-/-- the loops of `CreateBarcodesWithBannedSequences` on a given de Bruijn string -/
-def barcodesOn (db : Str) (length n : Nat) (bans : List Str) (filters : List (Str → Bool)) : Res (List Str) :=
-  outerLoop db length ((length : Int) - ((n : Int) - 1)) bans filters (db.length + 1) 0
-
-/-- `primers.CreateBarcodesWithBannedSequences(length, n, bans, filters)` for `length, n ≥ 0` -/
-def createBarcodesWith (length n : Nat) (bans : List Str) (filters : List (Str → Bool)) : Res (List Str) :=
-  (deBruijn n).bind fun db => barcodesOn db length n bans filters
-
-/-- `primers.CreateBarcodes(length, n)` -/
-def createBarcodes (length n : Nat) : Res (List Str) := createBarcodesWith length n [] []
-
-/-! ### the named filter family used on the protocol (the same functions in harness/cmd/run-primers/ops_c17.go) -/
-
-/-- longest run of equal adjacent letters, scanning with the current run's letter and length -/
-def maxRunAux : Char → Nat → Nat → Str → Nat
-  | _, cur, best, [] => max cur best
-  | p, cur, best, c :: cs => if c = p then maxRunAux p (cur + 1) best cs else maxRunAux c 1 (max cur best) cs
-
-def maxRun : Str → Nat
-  | [] => 0
-  | c :: cs => maxRunAux c 1 0 cs
-
-def gcCount (s : Str) : Nat := (s.filter (fun c => c = 'G' || c = 'C')).length
-
-/-- `homo:k` accept iff no homopolymer run of length ≥ k; `gc:lo:hi` accept iff lo ≤ #G+#C ≤ hi;
-`nostart:X` / `noend:X` accept iff the barcode does not start / end with the letter X;
-`nopal` accept iff the barcode is not its own reverse complement.  Anything else: accept all. -/
-def namedFilter (spec : String) : Str → Bool :=
-  match spec.splitOn ":" with
-  | ["homo", k] => fun s => maxRun s < natOfStr k
-  | ["gc", lo, hi] => fun s => natOfStr lo ≤ gcCount s && gcCount s ≤ natOfStr hi
-  | ["nostart", x] => fun s => !(x.toList.isPrefixOf s && !x.isEmpty)
-  | ["noend", x] => fun s => !(x.toList.isSuffixOf s && !x.isEmpty)
-  | ["nopal"] => fun s => !(s == Transform.revComp s)
-  | _ => fun _ => true
+  -- a := make([]byte, alphabetLength*substringLength); ConstructDeBruijn(1, 1)
+  match construct n (4 * n) (n + 2) 1 1 (List.replicate (4 * n) 0) [] with
+  | .ok (_, seqRev) =>
+    match toLetters seqRev [] with
+    | .ok b =>
+      -- return b + b[0:substringLength-1]
+      bif n.beq 0 then .panic                                  -- b[0:-1]
+      else bif atLeast b (n - 1) then .ok (b ++ b.take (n - 1)) else .panic   -- n-1 ≤ len(b)
+    | r => r
+  | .panic => .panic
+  | .fuel => .fuel
 
 end PolyVerif.DeBruijn
